@@ -165,9 +165,13 @@ func collectCommandMetrics(cb *circuit.Circuit) *streamCmdMetric {
 		// We still show the circuit, but everything shows up as zero
 		builtInRollingFallbackMetricCollector = &rolling.FallbackStats{}
 	}
-	now := cb.Config().General.TimeKeeper.Now()
-	snap := builtInRollingCmdMetricCollector.Latencies.SnapshotAt(now)
 	circuitConfig := cb.Config()
+	// SetConfigThreadSafe stores the configuration it is given verbatim, so the time keeper may be unset
+	now := time.Now()
+	if circuitConfig.General.TimeKeeper.Now != nil {
+		now = circuitConfig.General.TimeKeeper.Now()
+	}
+	snap := builtInRollingCmdMetricCollector.Latencies.SnapshotAt(now)
 	return attachHystrixProperties(cb, &streamCmdMetric{
 		Type:           "HystrixCommand",
 		Name:           cb.Name(),
